@@ -5,6 +5,15 @@ from . import runner, scen_bus, scen_hostile, scen_rules, scen_deadline, scen_ac
 from .runner import report, run_cases, seed
 
 CHECKS = {}
+
+
+def real_kernel_lane():
+    """the real-kernel lane needs a private network namespace; where that is not permitted the lane is skipped (and says so)"""
+    import subprocess
+    try:
+        return subprocess.run(["unshare", "-n", "sh", "-c", "ip link set lo up"], stdout=subprocess.DEVNULL, stderr=subprocess.DEVNULL, timeout=20).returncode == 0
+    except Exception:
+        return False
 LOWHEAP_IN_C07 = True
 
 
@@ -251,13 +260,17 @@ def c07(tier):
     mid = mk("reclaim", 250 if q else 8000, s + 7, "default", mode="bus", n_ops=60) + mk("reclaim", 100 if q else 3000, s + 8, "default", mode="hostile", n_ops=40)
     for i, c in enumerate(mid):
         c["params"] = dict(c["params"], sigterm_mid=(c["seed"] * 7 + i) % 45)
-    res = run_cases(cases + mid)
+    real = mk("realdiff", 40 if q else 1500, s + 11, "default")
+    for c in real:
+        c["sim"] = False
+    res = run_cases(cases + mid) + (run_cases(real) if real_kernel_lane() else [])
     return report("C07", "exploration", res,
                   "random bus histories, hostile sessions incl. half-open HTTP upgrades, injected failures of timerfd_create / timerfd_settime / epoll_ctl / fcntl / "
                   "setsockopt / getsockname, peers that stop reading or whose sockets fail while requests are routed to them, a 256 KiB heap cap (64 KiB above the idle daemon) reached by ordinary adds; afterwards either all connections are closed and heap / peers / "
                   "descriptors / timers / epoll registrations are compared with the idle baseline, or SIGTERM is delivered at a seeded step (exit status 0, "
                   "accounted heap 0, no descriptor open, LeakSanitizer silent); during every run: descriptor-hygiene monitor of the simulated kernel (descriptors "
                   "are never reused, so double close / use after close / foreign descriptors are always visible) and the heap-cap assertion in the allocation tap; "
+                  "plus scripts against the unwrapped daemon on the real kernel ended by a real SIGTERM (exit status 0, LeakSanitizer silent); "
                   "distinct = signatures of all monitors incl. injected (call, errno) pairs and termination states",
                   t0, tier, SIM_ASSUME, min_events={"baseline_checks": 500, "shutdowns": 800})
 
@@ -397,6 +410,13 @@ def c09(tier):
     res = run_cases(cases)
     # the message-content tap of the bus workload: what the JSON layer is handed must be exactly the k-th message sent
     res += run_cases(mk("bus", 150 if q else 4000, s + 3, "default", n_ops=60) + mk("hostile", 100 if q else 3000, s + 4, "default", n_ops=40))
+    # fidelity anchor: the simulated reference run of a script vs the same script against the real daemon on the real kernel
+    real = mk("realdiff", 80 if q else 2500, s + 5, "default") + mk("realdiff", 40 if q else 1200, s + 6, "smallbuf")
+    for c in real:
+        c["sim"] = False
+    have_real = real_kernel_lane()
+    if have_real:
+        res += run_cases(real)
     return report("C09", "exploration", res,
                   "differential: a generated multi-connection script (raw / unix / WebSocket; requests of all kinds, batches, routed requests with owner replies, "
                   "zero-length frames, messages ending at the buffer end, truncated JSON followed by its continuation, trailing bytes inside the declared "
@@ -404,9 +424,12 @@ def c09(tier):
                   "policies: 1..7-byte and random chunks, polls between chunks, prefixes of the next unit coalesced into the same read, batch size 1 / "
                   "shuffled batches, spurious wake-ups, and the read buffer behind the received bytes scribbled with 0x00 / } / quote / ]}-tails / 0xff / "
                   "digits / random; the decoded output of every connection must be identical; plus the parse_message tap (content handed to the JSON layer "
-                  "== k-th message sent) over bus and hostile workloads; distinct = (policy, size class, transports) signatures",
+                  "== k-th message sent) over bus and hostile workloads; fidelity anchor: the reference run on the simulated kernel is compared with the same "
+                  "script against the unwrapped daemon on the real Linux kernel in its own network namespace (fenced, no sleeps): identical decoded output per "
+                  "connection is what justifies trusting the simulated kernel; distinct = (policy, size class, transports) signatures",
                   t0, tier, SIM_ASSUME + ["cross-connection output order is not compared; message completions keep the reference's global order (the property's side condition)"],
-                  min_events={"variant_runs": 1000, "variants_identical": 1, "messages_parsed": 5000})
+                  extra_cov={"real_kernel_lane": "run" if have_real else "unavailable in this environment (unshare -n not permitted): skipped"},
+                  min_events=dict({"variant_runs": 1000, "variants_identical": 1, "messages_parsed": 5000}, **({"traces_validated_against_real_kernel": 50} if have_real else {})))
 
 
 def _out_combos(rng, wbuf, n, dense=None):
